@@ -97,6 +97,7 @@ def run(ctx):
     rule_badsigs(ctx, F)
     rule_loopcount(ctx, F)
     rule_wildsig(ctx, F)
+    rule_sigcanon(ctx, F)
 
 
 def rule_sig(ctx, F):
@@ -1242,3 +1243,23 @@ def rule_wildsig(ctx, F):
                "validate_with_node takes the closest encloser of an expanded wildcard from %s, which is not the record just verified "
                "by check_sig_cached (or is evaluated before that check): with an unverifiable RRSIG carrying a full label count in "
                "front, a replayed `*.zone` answer for an existing name is secure without any proof" % show(recv)[:90], b.where(bb))
+
+
+def rule_sigcanon(ctx, F):
+    """RFC 4034 3.1.8.1: every name in the signed data is in canonical form (lower case).  `RrsigExt::signed_data`
+    writes names -- the signer name, the owner, and the `*.` + kept suffix of a wildcard-expanded owner -- through
+    `compose_canonical` only; a plain `ToName::compose` there makes the validity of a signature depend on the case the
+    answer happened to arrive in (0x20 randomisation)."""
+    R = "C14.sigcanon"
+    ctx.floor(R, 1)
+    b = F.one_body(r"^<rdata::dnssec::Rrsig<Octets, TN> as dnssec::validator::base::RrsigExt>::signed_data$")
+    if not ctx.anchor(R, "RrsigExt::signed_data", b):
+        return
+    canon = b.calls_matching(r"ToName::compose_canonical$")
+    plain = b.calls_matching(r"(ToName|ToRelativeName)::compose$")
+    if not ctx.anchor(R, "compose_canonical calls in signed_data", len(canon) >= 2, b.where()):
+        return
+    ctx.ob(R, b, "names enter the signed data in canonical form only", not plain,
+           "RrsigExt::signed_data writes a name with compose() instead of compose_canonical() (%s): an RRset whose owner arrives "
+           "in mixed case fails signature verification and is reported bogus" % ", ".join(b.where(bb) for bb, _ in plain[:3]),
+           b.where(plain[0][0]) if plain else b.where())
